@@ -225,6 +225,81 @@ fn alphabet(patterns: &[&str], ascii: bool) -> Vec<char> {
     out
 }
 
+/// Maximal literal runs of the patterns ("cd" and "cd" in `(?<=cd)cd`, "aa" in `(?<=a)aa`).
+fn literal_tokens(patterns: &[&str], ascii: bool) -> Vec<String> {
+    let mut toks: Vec<String> = Vec::new();
+    for p in patterns {
+        let mut cur = String::new();
+        let mut prev_bs = false;
+        let mut in_class = false;
+        // inside a group prefix "(?:", "(?=", "(?<=", "(?<name>": skip up to its terminator
+        let mut in_prefix = false;
+        let mut prev = ' ';
+        for c in p.chars() {
+            if in_prefix {
+                if c == ':' || c == '=' || c == '!' || c == '>' {
+                    in_prefix = false;
+                }
+                prev = c;
+                continue;
+            }
+            if c == '?' && prev == '(' && !prev_bs && !in_class {
+                in_prefix = true;
+                prev = c;
+                continue;
+            }
+            prev = c;
+            let lit = !prev_bs && !in_class && (c.is_alphanumeric() || c == ' ' || c == '-' || c == '"') && (!ascii || c.is_ascii());
+            if lit {
+                cur.push(c);
+            } else {
+                if !cur.is_empty() {
+                    toks.push(std::mem::take(&mut cur));
+                }
+                if prev_bs {
+                    prev_bs = false;
+                    continue;
+                }
+                match c {
+                    '\\' => prev_bs = true,
+                    '[' => in_class = true,
+                    ']' => in_class = false,
+                    _ => {}
+                }
+            }
+        }
+        if !cur.is_empty() {
+            toks.push(cur);
+        }
+    }
+    toks
+}
+
+/// A haystack made of the patterns' own literal runs glued together, with a few random
+/// characters in between: adjacent and overlapping candidate matches, which is where the
+/// iteration cursor, the prefilter and look-behind context interact.
+fn gen_hay_tokens(rng: &mut Rng, toks: &[String], alpha: &[char], max_chars: u64) -> String {
+    let mut s = String::new();
+    let n = rng.range(2, 8);
+    for _ in 0..n {
+        match rng.below(8) {
+            0 => s.push(alpha[rng.usize_below(alpha.len())]),
+            1 => {
+                // a token cut short or doubled: near-misses and overlaps
+                let t = &toks[rng.usize_below(toks.len())];
+                let cs: Vec<char> = t.chars().collect();
+                let k = 1 + rng.usize_below(cs.len());
+                s.extend(cs[..k].iter());
+            }
+            _ => s.push_str(&toks[rng.usize_below(toks.len())]),
+        }
+        if s.chars().count() as u64 >= max_chars {
+            break;
+        }
+    }
+    s.chars().take(max_chars as usize).collect()
+}
+
 fn gen_hay(rng: &mut Rng, alpha: &[char], max_chars: u64) -> String {
     let n = match rng.below(10) {
         0 => 0,
@@ -355,6 +430,8 @@ pub fn gen_world(base: u64, run: u64, profile: Profile) -> World {
     let pats: Vec<&str> = regexes.iter().map(|r| r.pattern.as_str()).collect();
     let alpha_u = alphabet(&pats, false);
     let alpha_a = alphabet(&pats, true);
+    let toks_u = literal_tokens(&pats, false);
+    let toks_a = literal_tokens(&pats, true);
     let nhay = 1 + wl.usize_below(if profile == Profile::C19 { 4 } else { 6 });
     let mut hays: Vec<Hay> = Vec::new();
     for _ in 0..nhay {
@@ -362,7 +439,8 @@ pub fn gen_world(base: u64, run: u64, profile: Profile) -> World {
         // a share of the haystacks is ASCII-only and ascii regexes only use those
         let ascii_only = any_ascii && (hays.iter().all(|h| !h.text.is_ascii()) || wl.chance(1, 2));
         let a = if ascii_only { &alpha_a } else { &alpha_u };
-        let text = gen_hay(&mut wl, a, 32);
+        let toks = if ascii_only { &toks_a } else { &toks_u };
+        let text = if !toks.is_empty() && wl.chance(2, 5) { gen_hay_tokens(&mut wl, toks, a, 32) } else { gen_hay(&mut wl, a, 32) };
         // haystack 0 is always shared so that every thread sees at least one
         let owner = if !hays.is_empty() && wl.chance(1, 4) { Some(wl.below(nthreads as u64) as u32) } else { None };
         hays.push(Hay { text, owner });
